@@ -64,7 +64,7 @@ structure Comm where
   delivered : Option Nat := none    -- what copy_data wrote to the receiver
   writes : Nat := 0                 -- ghost: number of times copy_data copied
   detached : Bool := false
-  mboxSet : Bool := true            -- mbox_ != nullptr while queued (find_matching_comm resets it, even for iprobe)
+  mboxSet : Bool := true            -- mbox_ != nullptr while in comm_queue_ (reset only when the comm is removed)
   sendEv : Option Nat := none       -- ghost: index of the isend call
   recvEv : Option Nat := none       -- ghost: index of the irecv call
   sfilt : Filter := .none           -- ghost: the sender's match function
@@ -194,9 +194,15 @@ def iprobeRecv (s : Mbox) (f : Filter) (d : Option MData) : Option Comm :=
   | some c => some c
   | none => s.queue.find? (accepts .send f d)
 
-/-- `find_matching_comm(…, remove_matching = false)` still executes `comm->set_mailbox(nullptr)` on the comm it
-found, although the comm stays in the deque: after an iprobe hit the queued comm has `mbox_ == nullptr`. -/
-def iprobeMark (s : Mbox) (f : Filter) (d : Option MData) : Mbox :=
+/-- an `iprobe` call as a step of the mailbox.  `find_matching_comm(…, remove_matching = false)` leaves the comm it found
+in its deque AND leaves its `mbox_` alone (`set_mailbox(nullptr)` is done only together with the `erase`): nothing changes
+but the call counter. -/
+def iprobeMark (s : Mbox) (_f : Filter) (_d : Option MData) : Mbox := { s with next := s.next + 1 }
+
+/-- PRE-FIX variant (kept for the regression theorem `iprobe_prefix_regression`): before the fix "Mailbox::iprobe()
+detached the communication it found from its mailbox", `find_matching_comm` executed `comm->set_mailbox(nullptr)` before
+looking at `remove_matching`: after an iprobe hit the still queued comm had `mbox_ == nullptr`. -/
+def iprobeMarkPre (s : Mbox) (f : Filter) (d : Option MData) : Mbox :=
   match iprobeRecv s f d with
   | some c =>
     { s with next := s.next + 1,
@@ -204,8 +210,9 @@ def iprobeMark (s : Mbox) (f : Filter) (d : Option MData) : Mbox :=
              done := s.done.map (fun x => if x.id == c.id then { x with mboxSet := false } else x) }
   | none => { s with next := s.next + 1 }
 
-/-- `CommImpl::cancel()` on a WAITING, non-detached comm does `mbox_->remove(this)`: a null dereference when an
-iprobe has reset `mbox_` (reproduced: segmentation fault).  `clear()` cancels the same way. -/
+/-- `CommImpl::cancel()` on a WAITING, non-detached comm does `mbox_->remove(this)`: a null dereference if `mbox_` of a
+queued comm were null (pre-fix: after an iprobe hit — reproduced then: segmentation fault).  `clear()` cancels the same
+way.  `cancel_never_crashes` / `clear_never_crashes` (Props.lean): never true in a reachable state. -/
 def cancelCrashes (s : Mbox) (id : Nat) : Bool :=
   match s.queue.find? (fun c => c.id == id) with
   | some c => !c.detached && !c.mboxSet
@@ -220,6 +227,7 @@ inductive Ev where
   | cancel (id : Nat)
   | finish (id : Nat)
   | clear
+  | iprobe (f : Filter) (d : Option MData)
   deriving DecidableEq, Repr
 
 def step (s : Mbox) : Ev → Mbox
@@ -229,8 +237,16 @@ def step (s : Mbox) : Ev → Mbox
   | .cancel id => cancel s id
   | .finish id => finish s id
   | .clear => clear s
+  | .iprobe f d => iprobeMark s f d
 
 def run (h : List Ev) : Mbox := h.foldl step {}
+
+/-- PRE-FIX variant of the mailbox (regression only): the same calls, iprobe resetting `mbox_` of the comm it found -/
+def stepPre (s : Mbox) : Ev → Mbox
+  | .iprobe f d => iprobeMarkPre s f d
+  | e => step s e
+
+def runPre (h : List Ev) : Mbox := h.foldl stepPre {}
 
 def Mbox.all (s : Mbox) : List Comm := s.queue ++ s.done ++ s.others
 
